@@ -199,6 +199,31 @@ def run(ctx):
         rc, out, err = core.run_cmd([os.path.join(d, "robsd-regress-html")] + argv, env=env, timeout=20)
         judge("robsd-regress-html", argv, rc, out, err, b"", {"step.csv": f})
         kinds["column-removed"] = kinds.get("column-removed", 0) + 1
+    # ---- logs beyond 1 MiB (the buffers of the report and html generators start at 1 MiB / 8 KiB)
+    for variant in range(ctx.n(2, 6)):
+        # suites named like regress tests (the html generator leaves the fixed steps env/cvs/... out)
+        hstep = HEADER + b"1,bin/small,0,1,0,env.log,root,1700000000,0\n2,bin/big,%d,3600,-5,kernel.log,root,1700000001,0\n3,end,0,3700,0,,root,1700003700,0\n" % (variant % 2)
+        open(os.path.join(bdir, "step.csv"), "wb").write(hstep)
+        big_pass = b"".join(b"ok %06d some ordinary output of a passing test\n" % i for i in range(26000))
+        big_fail = b"".join(b"==== t%05d ====\nFAILED t%05d because of reasons, a long explanation follows here\n" % (i, i) for i in range(17000))
+        open(os.path.join(bdir, "env.log"), "wb").write(big_pass if variant % 2 == 0 else big_fail)
+        open(os.path.join(bdir, "kernel.log"), "wb").write(big_fail if variant % 2 == 0 else big_pass)
+        outdir = os.path.join(ctx.scratch, "c12html")
+        shutil.rmtree(outdir, ignore_errors=True)
+        os.makedirs(outdir)
+        argv = ["-o", outdir, "amd64:" + root]
+        rc, out, err = core.run_cmd([os.path.join(d, "robsd-regress-html")] + argv, env=env, timeout=60)
+        judge("robsd-regress-html", argv, rc, out, err, b"", {"step.csv": hstep, "env.log": b"<%d bytes>" % len(big_pass), "kernel.log": b"<%d bytes>" % len(big_fail)})
+        open(os.path.join(bdir, "step.csv"), "wb").write(step)
+        p = os.path.join(root, "c.conf")
+        rmode = MODES[variant % 5]
+        open(p, "wb").write(conf[rmode])
+        argv = ["-m", rmode, "-C", p, bdir]
+        rc, out, err = core.run_cmd([os.path.join(d, "robsd-report")] + argv, env=env, timeout=60)
+        judge("robsd-report", argv, rc, out, err, b"", {"step.csv": step, "kernel.log": b"<%d bytes>" % len(big_fail)})
+        rc, out, err = core.run_cmd([os.path.join(d, "robsd-regress-log"), "-FS", os.path.join(bdir, "kernel.log"), os.path.join(bdir, "env.log")], env=env, timeout=60)
+        judge("robsd-regress-log", ["-FS"], rc, out, err, b"", {}, allowed=(0, 1, 2))
+        kinds["huge-logs"] = kinds.get("huge-logs", 0) + 1
     for t in range(n):
         which = t % 6
         raw = rng.random() < 0.15
@@ -295,7 +320,9 @@ def run(ctx):
         else:
             # ---- report / regress html over a damaged invocation directory
             r_ = rng.random()
-            f = mutate(rng, step) if r_ < 0.35 else mutate_columns(rng, step) if r_ < 0.8 else step
+            # every other case names the steps like regress suites (the html generator and the regress report leave the fixed steps out)
+            base_ = step if t % 2 else step.replace(b",env,", b",bin/ksh,").replace(b",kernel,", b",lib/libc/sys,")
+            f = mutate(rng, base_) if r_ < 0.35 else mutate_columns(rng, base_) if r_ < 0.8 else base_
             open(os.path.join(bdir, "step.csv"), "wb").write(f)
             for nm in ("env.log", "kernel.log"):
                 open(os.path.join(bdir, nm), "wb").write(mutate(rng, gen_log(rng)) if rng.random() < 0.7 else bytes(rng.randint(0, 255) for _ in range(rng.randint(0, 200))))
